@@ -38,7 +38,8 @@ def mutex_id(f, arg):
 
 
 class LockSpec:
-    def __init__(self, ctx, relevant):
+    def __init__(self, ctx, relevant, track=None):
+        self.track = track                # None = every mutex; else the set of mutex ids followed
         self.ctx = ctx
         self.relevant = relevant          # function keys to analyse in context
         self.memo = {}
@@ -47,10 +48,35 @@ class LockSpec:
         self.depth = 0
         self.edges = {}                   # (callee key, S at call) -> set of (caller key, call eid, caller entry S)
 
+    def keep(self, f, key):
+        """Only the results of trylock calls (and the locals they are stored
+        in) matter for lock pairing; all other path knowledge is dropped."""
+        c = f._cache.get("lock_keep")
+        if c is None:
+            c = set()
+            for bid, i in flow.all_events(f):
+                for lhs, var, op, rhs in flow.stores(f, i):
+                    if rhs is None:
+                        continue
+                    r = f.exprs[ex.skip(f, rhs)]
+                    if r["k"] == "call" and r.get("callee") == TRYLOCK:
+                        if var is not None:
+                            c.add(var["name"])
+                        elif lhs is not None and f.exprs[ex.skip(f, lhs)]["k"] == "ref":
+                            c.add(f.exprs[ex.skip(f, lhs)]["name"])
+            f._cache["lock_keep"] = c
+        if key[0] == "v":
+            return key[1] in c
+        if key[0] == "c":
+            return f.exprs[key[1]].get("callee") == TRYLOCK
+        return False
+
     def call(self, eng, f, eid, e, S, K):
         n = e.get("callee")
         if n in (LOCK, UNLOCK, TRYLOCK):
             m = mutex_id(f, e["c"][0])
+            if self.track is not None and m not in self.track:
+                return [(S, None)]
             if n == LOCK:
                 if m in S:
                     self.errors.append((f, eid, "pthread_mutex_lock (%s) while it is already held: self-deadlock" % m, "relock"))
@@ -152,24 +178,55 @@ def relevant_functions(ctx, is_protected_fn):
     return seen
 
 
+class Multi:
+    """The engines of one (function, entry lockset) context; they differ only in
+    what is known about the arguments (NULL / non-NULL) at the call."""
+
+    def __init__(self, engines):
+        self.engines = engines
+
+    def state_before(self, eid):
+        out = None
+        for e in self.engines:
+            st = e.state_before(eid)
+            if st:
+                out = st if out is None else (out | st)
+        return out
+
+    def outcomes(self):
+        res = set()
+        for e in self.engines:
+            res |= e.outcomes()
+        return res
+
+    def exit_states(self):
+        for e in self.engines:
+            for x in e.exit_states():
+                yield x
+
+    @property
+    def init(self):
+        return self.engines[0].init
+
+
 class Result:
     def __init__(self):
         self.contexts = {}       # f.key -> {entry S: Engine}
         self.spec = None
 
 
-def analyse(ctx, entries, is_protected_fn):
+def analyse(ctx, entries, is_protected_fn, track=None):
     """Analyse from each entry function with an empty lockset.  Returns
     Result: every (function, entry lockset) context that can occur, with a
     completed engine each."""
     rel = relevant_functions(ctx, is_protected_fn)
-    spec = LockSpec(ctx, rel)
+    spec = LockSpec(ctx, rel, track)
     res = Result()
     res.spec = spec
     empty = frozenset()
     for f in entries:
         eng = typestate.Engine(ctx, spec, f, [empty]).run()
-        res.contexts.setdefault(f.key, {})[empty] = eng
+        res.contexts.setdefault(f.key, {})[empty] = Multi([eng])
         # pairing at the entry point itself
         for rv, S, ret in eng.outcomes():
             if S != empty:
@@ -191,7 +248,11 @@ def analyse(ctx, entries, is_protected_fn):
             eng = typestate.Engine(ctx, spec, f, [S])
             eng.init = frozenset([(S, kin)])
             eng.run()
-            res.contexts.setdefault(fkey, {}).setdefault(S, eng)
+            cur = res.contexts.setdefault(fkey, {}).get(S)
+            if cur is None:
+                res.contexts[fkey][S] = Multi([eng])
+            else:
+                cur.engines.append(eng)
             changed = True
     return res
 
